@@ -80,6 +80,12 @@ class _Expr(ast.expr):
     _fields = ()
 
 
+class _BindingExpr(_Expr):
+    """an opaque expression that may bind: code that asks `is there a walrus in here?` (ast.walk) finds one; the visitor treats the node as a
+    whole (visit__Expr) and never descends into the witness"""
+    _fields = ('witness',)
+
+
 class Opaque(Child):
     """spec.flow.Child + source span [start, end) and, for expressions, an arbitrary read position inside it"""
 
@@ -96,7 +102,9 @@ class Opaque(Child):
         return [z3.Not(z3.IsMember(BOT, self.G))] if self.effects else []
 
     def node(self):
-        nd = (_Stmts if self.kind == 'stmts' else _Expr)()
+        nd = (_Stmts if self.kind == 'stmts' else _BindingExpr if self.effects else _Expr)()
+        if isinstance(nd, _BindingExpr):
+            nd.witness = ast.NamedExpr(target=ast.Name(id='_witness', ctx=ast.Store()), value=ast.Constant(value=0))
         nd.child = self
         self.start.put(nd)
         nd.end_lineno, nd.end_col_offset = SInt(self.end.l), SInt(self.end.c)
@@ -140,6 +148,9 @@ def make_visitor_class():
                 c.repr = ('region', nf, self.flow)
                 self.flow = nf
                 self.flow.scope.flow = nf
+
+        def visit__BindingExpr(self, node):
+            return self.visit__Expr(node)
 
         def visit__Expr(self, node):
             c = node.child
@@ -454,6 +465,49 @@ def v_for(run):
         check_entries(sk, g, path, [(sk.e, ID), (sk.b, H.then(bx)), (sk.o, H)], fs)
         check_exit(sk, g, v, path, H.then(sk.o.tr), fs)
     run_skeleton(build, check)
+
+
+@harness(['C02', 'C03', 'C01', 'C13'], 'supp.nast.extract_visitor.visit_IfExp / visit_BoolOp')
+def v_conditional_expressions(run):
+    """B if t else O  (arms that may bind):  t from V; B and O from T_t(V); afterwards T_B(T_t V) | T_O(T_t V).
+    v0 or v1 or v2  (operands that may bind): v0 from V, v1 from T_v0(V), v2 from T_v1(T_v0 V); afterwards any prefix may have been evaluated:
+    T_v0(V) | T_v1(T_v0 V) | T_v2(T_v1(T_v0 V))"""
+    def build_ifexp():
+        sk = Skeleton()
+        t, b, o = sk.child('expr', 'test', effects=True), sk.child('expr', 'body', effects=True), sk.child('expr', 'orelse', effects=True)
+        kw = Pos('ifexp')
+        # written  B if t else O
+        sk.order(kw, b.start)
+        sk.facts += [le(b.end.t, t.start.t), le(t.end.t, o.start.t)]
+        sk.node = kw.put(ast.IfExp(test=t.node(), body=b.node(), orelse=o.node()))
+        sk.t, sk.b, sk.o = t, b, o
+        return sk
+
+    def check_ifexp(sk, g, v, path):
+        fs = all_facts(sk)
+        tt = sk.t.tr
+        check_entries(sk, g, path, [(sk.t, ID), (sk.b, tt), (sk.o, tt)], fs)
+        check_exit(sk, g, v, path, tt.then(sk.b.tr).join(tt.then(sk.o.tr)), fs)
+    run_skeleton(build_ifexp, check_ifexp)
+
+    def build_boolop():
+        sk = Skeleton()
+        v0, v1, v2 = sk.child('expr', 'operand0', effects=True), sk.child('expr', 'operand1', effects=True), sk.child('expr', 'operand2', effects=True)
+        kw = Pos('boolop')
+        sk.order(kw, v0.start)
+        sk.facts += [le(v0.end.t, v1.start.t), le(v1.end.t, v2.start.t)]
+        sk.node = kw.put(ast.BoolOp(op=ast.Or(), values=[v0.node(), v1.node(), v2.node()]))
+        sk.v0, sk.v1, sk.v2 = v0, v1, v2
+        return sk
+
+    def check_boolop(sk, g, v, path):
+        fs = all_facts(sk)
+        t0 = sk.v0.tr
+        t1 = t0.then(sk.v1.tr)
+        t2 = t1.then(sk.v2.tr)
+        check_entries(sk, g, path, [(sk.v0, ID), (sk.v1, t0), (sk.v2, t1)], fs)
+        check_exit(sk, g, v, path, joins([t0, t1, t2]), fs)
+    run_skeleton(build_boolop, check_boolop)
 
 
 @harness(['C02', 'C03', 'C01', 'C13'], 'supp.nast.extract_visitor.visit_Try')
